@@ -17,6 +17,7 @@ import DaskModel.Model.Coarsen2D
 import DaskModel.Model.HistogramDD
 import DaskModel.Model.RavelIndex
 import DaskModel.Model.UniqueNaNIO
+import DaskModel.Model.UniqueNdIO
 import DaskModel.Generated.ChunkTolerance
 import DaskModel.Model.PadEdgeIO
 open Dask
@@ -1026,7 +1027,7 @@ def table : List (String × Handler) := [
   ("merge_to_number", hMergeNum), ("graph_size", hGraphSize),
   ("merge_full", hMergeFull), ("find_split", hFindSplit), ("find_merge", hFindMerge), ("plan", hPlan),
   ("rechunk_locate", hRechunkLocate), ("auto_chunks", hAutoChunks), ("auto_sound", hAutoSound),
-  ("balance", hBalance)] ++ Dask.UniqueNaNIO.handlers
+  ("balance", hBalance)] ++ Dask.UniqueNaNIO.handlers ++ Dask.UniqueNdIO.handlers
   ++ Dask.CreationLike.handlers
   ++ Dask.PadEdge.handlers
 
